@@ -37,10 +37,14 @@ fn cfg(req: u32, resp: u32) -> ServerConfig {
 
 /// low-level assembly: hyper connection + ws::connect / http::call_with_service_builder (as in the repository's example)
 async fn low_level_server(req: u32, resp: u32, hits: Arc<AtomicUsize>) -> (SocketAddr, jsonrpsee_server::ServerHandle) {
+    low_level_server_with(cfg(req, resp), module(hits).into()).await
+}
+
+/// the same assembly for any configuration and method set (used by other scenarios)
+pub async fn low_level_server_with(config: ServerConfig, methods: Methods) -> (SocketAddr, jsonrpsee_server::ServerHandle) {
     let listener = TcpListener::bind("127.0.0.1:0").await.unwrap();
     let addr = listener.local_addr().unwrap();
     let (stop_handle, server_handle) = stop_channel();
-    let methods: Methods = module(hits).into();
     let conn_guard = ConnectionGuard::new(100);
     let conn_id = Arc::new(AtomicU32::new(0));
     tokio::spawn(async move {
@@ -51,13 +55,15 @@ async fn low_level_server(req: u32, resp: u32, hits: Arc<AtomicUsize>) -> (Socke
             };
             let (methods, stop_handle2, conn_guard, conn_id) = (methods.clone(), stop_handle.clone(), conn_guard.clone(), conn_id.clone());
             let sh = stop_handle.clone();
+            let config = config.clone();
             let svc = tower::service_fn(move |rq: hyper::Request<hyper::body::Incoming>| {
                 let (methods, stop_handle, conn_guard, conn_id) = (methods.clone(), stop_handle2.clone(), conn_guard.clone(), conn_id.clone());
+                let config = config.clone();
                 async move {
                     let permit = conn_guard.try_acquire().unwrap();
                     let conn = ConnectionState::new(stop_handle, conn_id.fetch_add(1, Ordering::Relaxed), permit);
                     if jws::is_upgrade_request(&rq) {
-                        match jws::connect(rq, cfg(req, resp), methods, conn, RpcServiceBuilder::new()).await {
+                        match jws::connect(rq, config, methods, conn, RpcServiceBuilder::new()).await {
                             Ok((rp, fut)) => {
                                 tokio::spawn(fut);
                                 Ok::<_, std::convert::Infallible>(rp)
@@ -65,7 +71,7 @@ async fn low_level_server(req: u32, resp: u32, hits: Arc<AtomicUsize>) -> (Socke
                             Err(rp) => Ok(rp),
                         }
                     } else {
-                        Ok(jhttp::call_with_service_builder(rq, cfg(req, resp), conn, methods, RpcServiceBuilder::new()).await)
+                        Ok(jhttp::call_with_service_builder(rq, config, conn, methods, RpcServiceBuilder::new()).await)
                     }
                 }
             });
